@@ -559,8 +559,8 @@ func checkC13Scope(env *Env) []Violation {
 	}
 	type key struct {
 		kind, name, tags string
-		i            int64
-		f            uint64
+		i                int64
+		f                uint64
 	}
 	want := map[key]int{}
 	idTag, bkTag := "bucketid", "bucket"
